@@ -250,6 +250,13 @@ def el_comment_text(g):
             f'<g><!-- lead --><title>t1</title><rect width="{g.s()}" height="{g.s()}"/><!-- trail --></g><text x="{g.p()}" y="{g.p()}"><tspan>a</tspan> b <tspan>c</tspan></text>')
 
 
+def el_transform_ws(g):
+    # white space (line breaks included) and commas may surround and separate the items of a transform list
+    return (f'<rect width="{g.s()}" height="{g.s()}" transform="translate({g.p()},{g.p()}) "/><rect width="{g.s()}" height="{g.s()}" transform=" rotate({g.p()})"/>'
+            f'<g transform="translate({g.p()} {g.p()})\n scale(2)\n"><rect width="{g.s()}" height="{g.s()}"/></g><circle r="{g.s()}" transform="translate({g.p()}) , scale({g.s()})"/>'
+            f'<rect width="{g.s()}" height="{g.s()}" transform="translate( {g.p()} , {g.p()} )"/><rect width="{g.s()}" height="{g.s()}" transform="scale({g.s()})\t"/>')
+
+
 def el_transforms(g):
     # the whole SVG 1.1 transform vocabulary, in its documented capitalisation, alone and in lists
     return (f'<rect width="{g.s()}" height="{g.s()}" transform="skewX({g.p()})"/><rect width="{g.s()}" height="{g.s()}" transform="skewY({g.p()}) translate({g.p()})"/>'
@@ -258,7 +265,7 @@ def el_transforms(g):
             f'<text x="{g.p()}" y="{g.p()}" transform="rotate({g.p()})">t</text><use href="#trf" x="{g.p()}" y="{g.p()}" transform="skewX({g.p()})"/><defs><rect id="trf" width="1" height="1"/></defs>')
 
 
-LEAF = {"use-centred": el_use_centred, "line-partial": el_line_partial, "text-forms": el_text_forms, "points-ws": el_points_ws, "fine-decimals": el_fine_decimals, "comment-text": el_comment_text, "mixed-units": el_mixed_units, "nonshape-attrs": el_nonshape_attrs, "text-dx-carriers": el_text_dx_carriers, "transforms": el_transforms, "partial": el_partial, "openclose": el_openclose, "use-partial": el_use_partial, "rect": el_rect, "rect0": el_rect0, "circle": el_circle, "ellipse": el_ellipse, "line": el_line, "polyline": el_polyline, "polygon": el_polygon, "path-abs": el_path_abs,
+LEAF = {"transform-ws": el_transform_ws, "use-centred": el_use_centred, "line-partial": el_line_partial, "text-forms": el_text_forms, "points-ws": el_points_ws, "fine-decimals": el_fine_decimals, "comment-text": el_comment_text, "mixed-units": el_mixed_units, "nonshape-attrs": el_nonshape_attrs, "text-dx-carriers": el_text_dx_carriers, "transforms": el_transforms, "partial": el_partial, "openclose": el_openclose, "use-partial": el_use_partial, "rect": el_rect, "rect0": el_rect0, "circle": el_circle, "ellipse": el_ellipse, "line": el_line, "polyline": el_polyline, "polygon": el_polygon, "path-abs": el_path_abs,
         "path-rel": el_path_rel, "path-arc": el_path_arc, "text": el_text, "text-tspan": el_text_tspan, "use": el_use, "image": el_image, "foreignObject": el_foreign,
         "linearGradient": el_lingrad, "radialGradient": el_radgrad, "marker": el_marker, "clipPath": el_clip, "mask": el_mask, "pattern": el_pattern, "filter": el_filter, "symbol": el_symbol,
         "title": el_title, "units": el_units, "style": el_style}
